@@ -611,6 +611,45 @@ theorem c11_account_sound_state (H : Bytes → Bytes) (h32 : ∀ x, (H x).length
   rw [hh] at hha
   exact ⟨aT, sa, hlT, hsa, (Option.some.inj hha).symm⟩
 
+/-- COMPLETENESS OF `check_account_proof`, END TO END, for honest proofs.  `tb` = the block (spec-valid, level 0), `ts` =
+the shard state (spec-valid, level 0); `pb`, `ps` ANY prunings of them (`PruneRel … 1`: any set of subtrees replaced by
+pruned branches, deeper levels below inner Merkle cells), each wrapped in the Merkle proof cell naming the level-0 hash
+and depth of the original.  Provided
+* the pruned header still shows the state commitment: `check_block_header_proof(pb, hash tb, True)` returns `hash ts`
+  (`root[2]` and its second child's hash are there; `c11_header_state_sound` lists what that needs),
+* the pruned state still passes the TL-B walk for the address (`c11_locate_complete`: path to the account unpruned,
+  everything off the path pruned or readable),
+* the supplied account state has as representation hash the level-0 hash of the account cell `aT` that the FULL state's
+  dictionary holds under the address,
+both proof cells can be constructed and `check_account_proof` returns — whether the account cell is present in the state
+proof in full or as a pruned branch (pruning invariance of the level-0 hash along the walk, `lookup_pruned`).  Side
+conditions as in `c11_complete`: root hashes are 32 valid bytes, depths ≤ 1022.  No collision hypothesis. -/
+theorem c11_account_complete_honest (H : Bytes → Bytes) (O : Opaque) (tb pb ts ps : Cell) (sb ss : Spec.SInfo)
+    (addr : Bytes) (state : PCell)
+    (wfb : TreeWF H tb) (hsb : specInfo H tb = some sb) (hlb : sb.mask = 0) (hrb : PruneRel H 1 tb pb)
+    (h32b : (sb.hashAt 0).length = 32 ∧ Bytes.WF (sb.hashAt 0)) (hdb : sb.depthAt 0 ≤ 1022)
+    (wfs : TreeWF H ts) (hss : specInfo H ts = some ss) (hls : ss.mask = 0) (hrs : PruneRel H 1 ts ps)
+    (h32s : (ss.hashAt 0).length = 32 ∧ Bytes.WF (ss.hashAt 0)) (hds : ss.depthAt 0 ≤ 1022)
+    (hhdr : ∀ r0, PCell.ofCell H pb = some r0 → checkBlockHeaderProofState r0 (sb.hashAt 0) = some (ss.hashAt 0))
+    (hloc : ∀ st, PCell.ofCell H ps = some st → ∃ acc, locateAccount O st addr = some acc)
+    (hl : addr.length = 32) (hw : Bytes.WF addr)
+    (aT : Cell) (sa : Spec.SInfo) (hfull : lookupShardAccount cellView ts (bytesToBits addr) = some aT)
+    (hsa : specInfo H aT = some sa) (hstate : state.info.hash = sa.hashAt 0) :
+    ∃ c0 c1, PCell.ofCell H (merkleProofCell (sb.hashAt 0) (sb.depthAt 0) pb) = some c0 ∧
+      PCell.ofCell H (merkleProofCell (ss.hashAt 0) (ss.depthAt 0) ps) = some c1 ∧
+      checkAccountProof O [c0, c1] (sb.hashAt 0) addr state = true := by
+  obtain ⟨c0, r0, hc0, hr0, hp0, hk0, _⟩ := c11_complete H tb pb sb wfb hsb hlb hrb h32b hdb
+  obtain ⟨c1, r1, hc1, hr1, hp1, hk1, hh1⟩ := c11_complete H ts ps ss wfs hss hls hrs h32s hds
+  obtain ⟨acc, hacc⟩ := hloc r1 hp1
+  have wfp : TreeWF H ps :=
+    (TonVerif.Proofs.PruneWF.prune_treeWF H 1 ts ps ss (Nat.le_refl _) wfs hss (by rw [hls]; decide) hrs).1
+  have hlk := locateAccount_lookup O r1 addr acc hl hw hacc
+  have hhash := lookup_pruned H ts ps r1 acc _ aT sa hp1 wfp hrs hlk hfull hsa
+  refine ⟨c0, c1, hc0, hc1, ?_⟩
+  apply c11_account_complete O c0 c1 r0 r1 acc state (sb.hashAt 0) addr (ss.hashAt 0) hk0 (by rw [hr0]; rfl)
+    (hhdr r0 hp0) (by rw [hr1]; rfl) (by simpa [checkBlockHeaderProof] using hh1) hk1 hacc
+  rw [hhash, hstate]
+
 /-! Non-vacuity of the hypotheses of `c11_account_sound_state` about `T` (and `p`): a state-shaped tree (the tree of the
 one-account example above, all cells ordinary) has the `Shape` of a valid bag, spec values, no pruned branch below
 ordinary cells, the toy hash (32-byte output) is injective on its 6 representations, and its own dictionary holds the
